@@ -107,6 +107,23 @@ pub fn enc_w<T: FieldVal>(f: fn(&mut Assembler, &T) -> Result<(), RtcmError>, d:
     }
 }
 
+/// decode with a parser the caller owns (several fields through one parser)
+pub fn dec_on_w<T: FieldVal>(f: fn(&mut Parser) -> Result<T, RtcmError>, par: &mut Parser) -> Result<Dec, FErr> {
+    match f(par) {
+        Ok(v) => Ok(v.to_dec()),
+        Err(e) => Err(map_err(e)),
+    }
+}
+
+/// encode with an assembler the caller owns (several fields through one assembler)
+pub fn enc_on_w<T: FieldVal>(f: fn(&mut Assembler, &T) -> Result<(), RtcmError>, d: &Dec, asm: &mut Assembler) -> Result<(), FErr> {
+    let v = match T::from_dec(d) {
+        Some(v) => v,
+        None => return Err(FErr::NotConstructible),
+    };
+    f(asm, &v).map_err(map_err)
+}
+
 pub struct FieldDef {
     pub id: &'static str,
     pub dt: &'static str,
@@ -121,6 +138,8 @@ pub struct FieldDef {
     pub has_ord: bool,
     pub dec: fn(&[u8], usize) -> Result<(Dec, usize), FErr>,
     pub enc: fn(&Dec, &mut [u8], usize) -> Result<usize, FErr>,
+    pub dec_on: for<'a, 'b> fn(&'b mut Parser<'a>) -> Result<Dec, FErr>,
+    pub enc_on: for<'a, 'b> fn(&Dec, &'b mut Assembler<'a>) -> Result<(), FErr>,
 }
 
 impl FieldDef {
